@@ -637,7 +637,7 @@ func init() {
 		Assume:      []string{"canonical dump of internal/obs; textual substitution with parenthesised arguments as the reference"},
 		QuickCap:    100 * time.Second,
 		ThoroughCap: 20 * time.Minute,
-		HangLimit:   60 * time.Second,
+		HangLimit:   240 * time.Second,
 		Run:         runC13,
 		Replay: func(c *core.Ctx, cs core.Case) *core.Viol {
 			if cs.Kind == "session" {
